@@ -25,7 +25,9 @@ import time
 HERE = os.path.dirname(os.path.abspath(__file__))
 REPO = os.environ.get("NUCS_REPO", "/repo")
 PY = os.environ.get("VERIF_PYTHON", "/venv/bin/python")
-WORK = os.path.join(HERE, ".work")
+WORK = os.environ.get("VERIF_WORK") or os.path.join(HERE, ".work")
+EVID = os.environ.get("VERIF_EVIDENCE_DIR") or os.path.join(HERE, "evidence")
+REPL = os.environ.get("VERIF_REPLAY_DIR") or os.path.join(HERE, "replays")
 NCPU = int(os.environ.get("VERIF_JOBS", "16"))
 
 
@@ -95,6 +97,7 @@ def run_jobs(prop, jobs, seed, tier, thash, rundir):
             tasks.append((job, s))
     running = []
     done = []
+    last_journal_check = [time.time()]
     it = iter(tasks)
     pending = True
     while pending or running:
@@ -107,12 +110,31 @@ def run_jobs(prop, jobs, seed, tier, thash, rundir):
             out = os.path.join(rundir, "%s-%d.json" % (job["name"], s))
             err = open(out + ".err", "w")
             cmd = [PY, "-m", "vlib.worker", "--prop", prop, "--job", json.dumps(job), "--shard", str(s), "--nshards", str(job["shards"]), "--seed", str(seed), "--tier", tier, "--out", out]
-            p = subprocess.Popen(cmd, cwd=HERE, env=base_env(job.get("mode", "I"), thash, job.get("env")), stdout=err, stderr=err)
+            extra = dict(job.get("env") or {})
+            extra["VERIF_JOURNAL"] = out + ".cur"
+            p = subprocess.Popen(cmd, cwd=HERE, env=base_env(job.get("mode", "I"), thash, extra), stdout=err, stderr=err)
             running.append((p, job, s, out, time.time(), err))
         time.sleep(0.05)
         still = []
+        now = time.time()
+        check_journals = now - last_journal_check[0] > 2.0
+        if check_journals:
+            last_journal_check[0] = now
         for p, job, s, out, t0, err in running:
             rc = p.poll()
+            if rc is None and check_journals:
+                # watchdog: a single case that does not come back (compiled code cannot be interrupted from inside)
+                limit = job.get("case_timeout", 60 if job.get("mode", "I") != "I" else 900)
+                try:
+                    cur = json.load(open(out + ".cur"))
+                except (OSError, ValueError):
+                    cur = {}
+                if cur.get("case") is not None and now - cur.get("t", now) > limit:
+                    p.kill()
+                    p.wait()
+                    err.close()
+                    done.append((job, s, None, "hang", json.dumps(cur["case"])))
+                    continue
             if rc is None:
                 if time.time() - t0 > job.get("timeout", 3600):
                     p.kill()
@@ -131,11 +153,14 @@ def run_jobs(prop, jobs, seed, tier, thash, rundir):
     return done
 
 
-def replay_cases(prop, cases, mode, thash, rundir, tag):
+def replay_cases(prop, cases, mode, thash, rundir, tag, timeout=None):
     inp = os.path.join(rundir, "replay-%s-in.json" % tag)
     out = os.path.join(rundir, "replay-%s-out.json" % tag)
     json.dump(cases, open(inp, "w"))
-    r = subprocess.run([PY, "-m", "vlib.worker", "--prop", prop, "--job", "{}", "--replay", inp, "--out", out], cwd=HERE, env=base_env(mode, thash), capture_output=True, text=True)
+    try:
+        r = subprocess.run([PY, "-m", "vlib.worker", "--prop", prop, "--job", "{}", "--replay", inp, "--out", out], cwd=HERE, env=base_env(mode, thash), capture_output=True, text=True, timeout=timeout)
+    except subprocess.TimeoutExpired:
+        return None
     if r.returncode != 0 or not os.path.exists(out):
         sys.stderr.write(r.stdout[-3000:] + r.stderr[-3000:])
         raise SystemExit(2)
@@ -230,7 +255,7 @@ def main():
                 violations.append((d["case"], "regression case %s fails again: %s" % (os.path.basename(p), r["msg"]), "regress", p))
 
     # ---------------- search ----------------
-    for old in glob.glob(os.path.join(HERE, "replays", "%s-*.json" % prop)):
+    for old in glob.glob(os.path.join(REPL, "%s-*.json" % prop)):
         os.remove(old)  # replay files of earlier runs; rewritten below if the violation is still there
     jobs = spec["jobs"]
     if a.jobs:
@@ -239,10 +264,14 @@ def main():
     harness_errors = []
     merged = {"evaluations": 0, "nontrivial": set(), "exh_nontrivial": 0, "samples": [], "hist": {}, "excluded": {}, "per_job": {}}
     inconclusive = []
+    hangs = []
     for job, s, res, rc, err in results:
         if res is None:
             if rc == "timeout":
                 inconclusive.append("%s shard %d hit its time budget" % (job["name"], s))
+                continue
+            if rc == "hang":
+                hangs.append((job, s, json.loads(err)))
                 continue
             if job.get("crash_is_verdict"):
                 continue
@@ -266,6 +295,23 @@ def main():
             pj["extra"][k] = pj["extra"].get(k, 0) + res["extra"][k]
         for f in res["failures"]:
             violations.append((f["case"], f["msg"], job["name"], None))
+    # a case on which a worker stopped answering: confirmed in fresh processes before anything is claimed
+    seen_hang = set()
+    for job, s, case in hangs[:4]:
+        if canon(case) in seen_hang:
+            continue
+        seen_hang.add(canon(case))
+        mode = job.get("mode", "I")
+        again = replay_cases(prop, [case], mode, thash, rundir, "hang-%s" % mode, timeout=90)
+        interp = replay_cases(prop, [case], "I", thash, rundir, "hang-I", timeout=600) if mode != "I" else again
+        if interp and interp[0]["ok"] is False:
+            violations.append((case, "worker stopped answering in mode %s; interpreted replay: %s" % (mode, interp[0]["msg"]), job["name"], None))
+        elif again is None:
+            violations.append((case, "the call does not return in mode %s (killed after 60 s and again after 90 s in a fresh process; such cases normally take milliseconds)%s" % (mode, "" if interp is None else "; the interpreted replay returns"), job["name"], None))
+        elif again and again[0]["ok"] is False:
+            violations.append((case, again[0]["msg"], job["name"], None))
+        else:
+            inconclusive.append("%s shard %d: a case exceeded the per-case time limit once but completed on replay" % (job["name"], s))
     if harness_errors:
         for h in harness_errors:
             sys.stderr.write("HARNESS ERROR: " + h + "\n")
@@ -281,12 +327,12 @@ def main():
             continue
         seen.add(c)
         new.append((case, msg, src, path))
-    os.makedirs(os.path.join(HERE, "replays"), exist_ok=True)
+    os.makedirs(REPL, exist_ok=True)
     lines = []
     for case, msg, src, path in new[:10]:
         if path is None:
             hh = hashlib.sha1(canon(case).encode()).hexdigest()[:10]
-            path = os.path.join(HERE, "replays", "%s-%s.json" % (prop, hh))
+            path = os.path.join(REPL, "%s-%s.json" % (prop, hh))
             json.dump({"property": prop, "job": src, "mode": next((j.get("mode", "I") for j in spec["jobs"] if j["name"] == src), replay_mode), "msg": msg, "case": case, "seed": seed, "tier": tier}, open(path, "w"), indent=1)
         print("violation: %s" % msg)
         lines.append("VIOLATION property=%s replay=%s" % (prop, path))
@@ -320,10 +366,10 @@ def main():
         "wall_s": round(time.time() - t0, 2),
         "violations": len(new),
     }
-    os.makedirs(os.path.join(HERE, "evidence"), exist_ok=True)
-    tmp = os.path.join(HERE, "evidence", "%s.json.tmp" % prop)
+    os.makedirs(EVID, exist_ok=True)
+    tmp = os.path.join(EVID, "%s.json.tmp" % prop)
     json.dump(ev, open(tmp, "w"), indent=1)
-    os.replace(tmp, os.path.join(HERE, "evidence", "%s.json" % prop))
+    os.replace(tmp, os.path.join(EVID, "%s.json" % prop))
     shutil.rmtree(rundir, ignore_errors=True)
     print("%s tier=%s seed=%d evaluations=%d distinct_nontrivial=%d violations=%d known=%d wall=%.1fs" % (prop, tier, seed, ev["coverage"]["evaluations"], distinct, len(new), len(known_lines), ev["wall_s"]))
     for l in lines:
